@@ -4,9 +4,16 @@
 A pure input space (BUILDING.md section 1): Envelope.tla is a depth-1 machine whose Next picks a case; TLC
 enumerates the cases and prints them, the harness executes one real transaction per case.  One trace line is
 one scenario (there is no state to reset): the line's "cfg" (src, cls, seed) re-executes it alone, which is
-what a replay file contains.  The trace is validated in shards of SHARD lines, one JVM each."""
+what a replay file contains.  The trace is validated in shards of SHARD lines, one JVM each.
+
+Second part (specs/EnvelopeOps.tla, specs/EnvelopeOpsTrace.tla, harness/envelopeops.go): the same API used in
+SEQUENCES on SHARED objects - a state machine over one re-used TxBuilder, the wrapped messages and decoded
+Cosmos transactions with several Ethereum messages (build / pack / encode / decode / lookup by hash / getters).
+TLC checks P on the model exhaustively, its simulated behaviours and seeded random scenarios are executed on the
+real objects, and every recorded step is validated by TLC (StepOK with frame conditions + invariants)."""
 import collections
 import glob
+import hashlib
 import json
 import os
 import shutil
@@ -16,11 +23,13 @@ from vlib import *
 
 TRACE_CFG = "EnvelopeTrace.cfg"
 SHARD = 20000          # trace lines per validating JVM
+OPS_SHARD = 6000       # the same for the sequence traces (cut at scenario boundaries)
+OPS_WITNESSES = ["buildkeepsfeewhenzero", "buildkeepslargergas", "buildappendsmsg", "lookupstampssearched"]
 
 MANIFEST_ENTRY = dict(engine="Envelope", design="§4 C18",
-   technique="TLA+ spec Envelope.tla: TLC enumerates the case space of a depth-1 input machine (product of field classes of the three transaction types, restricted to the combinations that exist) and proves the derived-figure definitions mutually consistent on it; every enumerated case plus seeded random cases is executed as one real signed transaction through FromEthereumTx / ValidateBasic / BuildTx / TxEncoder / TxDecoder / AsTransaction; TLC validates every recorded case against the identities and the figures it computes itself with exact integers (trace validation)",
-   text="Model-driven case enumeration with real-code replay. TLC enumerates the product of field classes (type x nonce x gas x amount {nil,0,1,2^64,2^256-1} x gasPrice or feeCap x tip/cap relation x data {empty,1B,64KiB} x access list {nil,empty,3x3} x to {create,call,zero address} x legacy signature form x chain id {1,11235,2^63} x base-fee class), quick tier: factored product (all numeric combinations x 3 structural backgrounds, all structural combinations x 3 numeric backgrounds, 6269 cases), thorough tier: the full product (324014 cases), plus out-of-range cases; on the model it proves that fee, cost and effective price/fee/cost as defined from the statement are mutually consistent (effective <= static, cost - fee = value, min(tip+base,cap) - base = min(tip,cap-base), the class decides the side of the min, EIP-155 chain-id derivation). The harness signs one go-ethereum transaction per case (seeded value inside the class, fresh key), runs the real wrap/encode/decode/unwrap path with the node's TxConfig and logs every field before and after; TLC checks on every recorded case: hash after = hash before = MsgEthereumTx.Hash, recovered sender = original sender = key address (also through the message's GetSender/GetSigners), every field and the type equal, and GetFee / Cost / EffectiveGasPrice / GetEffectiveFee / EffectiveCost of the message (before encoding and after decoding) and the envelope's fee and gas limit equal the figures TLC computes from the original transaction. RLP, protobuf, Any packing and signature recovery are observed through the real calls (before/after), not modelled.",
-   note="Fidelity is checked on the enumerated classes and seeded instances, not on all field values; the specification contributes the case analysis, the figures and the acceptance-rule transcription (diagnostic), it does not model the codecs. Transactions the code refuses at construction (values above 2^256-1) or whose envelope cannot be built after ValidateBasic refused them (fee above 2^256-1) are counted, not judged. Dynamic-fee transactions without a base fee have no effective price in the statement (the code panics there; logged). The receiving side is TxDecoder + GetMsgs + AsTransaction, not a full CheckTx. TLC, the Json community module, the BigNum override and go-ethereum's signer / hash as the reference for the original transaction are trusted.")
+   technique="TLA+ spec Envelope.tla: TLC enumerates the case space of a depth-1 input machine (product of field classes of the three transaction types, restricted to the combinations that exist) and proves the derived-figure definitions mutually consistent on it; every enumerated case plus seeded random cases is executed as one real signed transaction through FromEthereumTx / ValidateBasic / BuildTx / TxEncoder / TxDecoder / AsTransaction; TLC validates every recorded case against the identities and the figures it computes itself with exact integers (trace validation). Second machine EnvelopeOps.tla: the same API as OPERATIONS on shared objects (one re-used TxBuilder, wrapped messages, decoded multi-message Cosmos transactions): TLC model-checks the property layer (per-operation effect + frame condition, invariants) exhaustively on the as-built machine and refutes four named mutation witnesses; TLC-simulated behaviours and seeded random scenarios are executed on the real objects and every recorded step is validated by TLC",
+   text="Model-driven case enumeration with real-code replay. TLC enumerates the product of field classes (type x nonce x gas x amount {nil,0,1,2^64,2^256-1} x gasPrice or feeCap x tip/cap relation x data {empty,1B,64KiB} x access list {nil,empty,3x3} x to {create,call,zero address} x legacy signature form x chain id {1,11235,2^63} x base-fee class), quick tier: factored product (all numeric combinations x 3 structural backgrounds, all structural combinations x 3 numeric backgrounds, 6269 cases), thorough tier: the full product (324014 cases), plus out-of-range cases; on the model it proves that fee, cost and effective price/fee/cost as defined from the statement are mutually consistent (effective <= static, cost - fee = value, min(tip+base,cap) - base = min(tip,cap-base), the class decides the side of the min, EIP-155 chain-id derivation). The harness signs one go-ethereum transaction per case (seeded value inside the class, fresh key), runs the real wrap/encode/decode/unwrap path with the node's TxConfig and logs every field before and after; TLC checks on every recorded case: hash after = hash before = MsgEthereumTx.Hash, recovered sender = original sender = key address (also through the message's GetSender/GetSigners), every field and the type equal, and GetFee / Cost / EffectiveGasPrice / GetEffectiveFee / EffectiveCost of the message (before encoding and after decoding) and the envelope's fee and gas limit equal the figures TLC computes from the original transaction. RLP, protobuf, Any packing and signature recovery are observed through the real calls (before/after), not modelled. Sequences (EnvelopeOps): a state machine whose state is the projection of the live objects - the wrapped messages of 2-4 signed originals (drawn from the same case product, about half of them free), THE shared TxBuilder, the encoded envelopes and the decoded Cosmos transactions - and whose operations are build (MsgEthereumTx.BuildTx on the shared builder, whatever it held before), pack (several Ethereum messages in one envelope, summed fee and gas limit), encode (builder or decoded transaction), decode, lookup (UnwrapEthereumMsg for the hash of any original at any position, or a foreign hash) and get (AsTransaction.Hash, GetMsgs, Marshal/Unmarshal, TxType, GetSender, GetSigners, AsMessage, GetFee, GetGas, Cost, GetEffectiveFee, ValidateBasic on any message of any object). P: every operation has exactly its effect (a build leaves an envelope of exactly that message with exactly its fee and gas limit; what is decoded is what was encoded; a lookup returns the message with that hash iff the envelope carries it; a getter returns the figure of the original) and changes nothing else anywhere; after every step every message object records its own Ethereum hash, shows hash / sender / type / field digest / fee / gas / cost / effective fee of the original it carries and passes ValidateBasic, and every envelope's fee and gas limit are the sums over the originals it carries. Quick: exhaustive to depth 6 on two pools (5k states), 400 TLC behaviours of 12 operations + 200 random scenarios of 14 (8200 validated steps); thorough: depth 7 with all getters (42k states), 3000 + 2000 scenarios.",
+   note="Fidelity is checked on the enumerated classes and seeded instances, not on all field values; the specification contributes the case analysis, the figures and the acceptance-rule transcription (diagnostic), it does not model the codecs. Transactions the code refuses at construction (values above 2^256-1) or whose envelope cannot be built after ValidateBasic refused them (fee above 2^256-1) are counted, not judged. Dynamic-fee transactions without a base fee have no effective price in the statement (the code panics there; logged). The receiving side is TxDecoder + GetMsgs + AsTransaction, not a full CheckTx. In the sequence machine the unsigned From field (written by GetSender, cleared by BuildTx) is not part of the projection, builder attributes BuildTx never sets (memo, timeout, fee payer, signatures) are not driven, multi-message envelopes are assembled by the harness with the builder's own setters, and pools hold only transactions ValidateBasic accepts; the mutation witnesses (Defects of EnvelopeOps) are not known deviations of the code, they show that P separates such machines. TLC, the Json community module, the BigNum override and go-ethereum's signer / hash as the reference for the original transaction are trusted.")
 
 
 def _dedupe(cases):
@@ -52,24 +61,26 @@ def _shard_dir(wd, i):
     return d
 
 
-def _validate(wd, trace="trace.ndjson", parallel=4):
-    """Splits the trace into shards (one JVM each) and merges the RESULT records."""
+def _validate(wd, trace="trace.ndjson", parallel=4, module="EnvelopeTrace.tla", cfg=TRACE_CFG, shard=SHARD,
+              by_scenario=False):
+    """Splits the trace into shards (one JVM each; by_scenario: only in front of a reset line) and merges the
+    RESULT records."""
     path = os.path.join(wd, trace)
     shards, offset = [], 0
     with open(path) as fh:
         out, n, i = None, 0, 0
         for line in fh:
+            if out is not None and n >= shard and (not by_scenario or '"ev":"reset"' in line):
+                out.close()
+                shards[-1][2] = n
+                offset += n
+                out, n, i = None, 0, i + 1
             if out is None:
                 d = _shard_dir(wd, i)
                 out = open(os.path.join(d, "trace.ndjson"), "w")
                 shards.append([d, offset, 0])
             out.write(line)
             n += 1
-            if n == SHARD:
-                out.close()
-                shards[-1][2] = n
-                offset += n
-                out, n, i = None, 0, i + 1
         if out is not None:
             out.close()
             shards[-1][2] = n
@@ -77,7 +88,14 @@ def _validate(wd, trace="trace.ndjson", parallel=4):
     total = offset
 
     def one(s):
-        res, r = validate_trace(s[0], "EnvelopeTrace.tla", TRACE_CFG, timeout=2400)
+        try:
+            res, r = validate_trace(s[0], module, cfg, timeout=2400)
+        except Infra as e:
+            # a JVM that died at start-up under memory pressure (several validators run side by side): once more
+            if "no RESULT" not in str(e):
+                raise
+            log("trace validation of %s produced no result, running it once more" % os.path.basename(s[0]))
+            res, r = validate_trace(s[0], module, cfg, timeout=2400)
         if res["consumed"] != s[2]:
             raise Infra("trace spec consumed %d of %d lines in %s" % (res["consumed"], s[2], s[0]))
         return res, r
@@ -85,12 +103,16 @@ def _validate(wd, trace="trace.ndjson", parallel=4):
     build_classes()
     with ThreadPoolExecutor(max_workers=parallel) as ex:
         results = list(ex.map(one, shards))
-    merged = {"consumed": 0, "viol": [], "div": [], "bad": [], "cnt": collections.Counter(), "wall": 0.0}
+    merged = {"consumed": 0, "scenarios": 0, "viol": [], "div": [], "bad": [], "cnt": collections.Counter(), "wall": 0.0}
     for s, (res, r) in zip(shards, results):
         merged["consumed"] += res["consumed"]
+        merged["scenarios"] += res.get("scenarios", 0)
         for v in res["viol"]:
             v["line"] += s[1]
             merged["viol"].append(v)
+        for d in res["div"]:
+            if "line" in d:
+                d["line"] += s[1]
         merged["div"] += res["div"]
         merged["bad"] += res["bad"]
         merged["cnt"].update(res["cnt"])
@@ -131,6 +153,124 @@ def _run_cases(wd_name, cfgs):
     if res["bad"]:
         raise Infra("replay: harness/specification problem: %s" % res["bad"][:5])
     return res
+
+
+def _ops_script(pool, steps, src="script", seed=None):
+    cfg = {"src": src}
+    if src != "random":
+        cfg["pool"] = pool
+    if seed is not None:
+        cfg["seed"] = seed
+    return {"cfg": cfg, "steps": [{"ev": st["ev"], "args": st["args"]} for st in steps]}
+
+
+def _ops_validate(wd, parallel=4):
+    return _validate(wd, parallel=parallel, module="EnvelopeOpsTrace.tla", cfg="EnvelopeOpsTrace.cfg", shard=OPS_SHARD,
+                     by_scenario=True)
+
+
+def _ops_scenarios(trace, need):
+    """the recorded scenarios (cfg + executed steps) with the given numbers, as scripts that re-execute them alone"""
+    got = collections.defaultdict(list)
+    with open(trace) as fh:
+        for line in fh:
+            if '"scn":' not in line:
+                continue
+            o = json.loads(line)
+            if o["scn"] in need:
+                got[o["scn"]].append(o)
+    out = {}
+    for scn, lines in got.items():
+        cfg = lines[0]["cfg"]
+        out[scn] = _ops_script(cfg.get("pool"), lines[1:], src=cfg["src"], seed=cfg["seed"])
+    return out
+
+
+def _run_ops_scripts(wd_name, scripts):
+    """Executes the given sequence scenarios alone and returns the validation result."""
+    wd = scratch(wd_name)
+    with open(os.path.join(wd, "scripts.json"), "w") as fh:
+        json.dump({"scripts": scripts}, fh)
+    hv(["envops", "--scripts", "scripts.json", "--out", "trace.ndjson", "--workers", "2"], cwd=wd)
+    res = _ops_validate(wd, parallel=1)
+    if res["bad"]:
+        raise Infra("replay: harness/specification problem: %s" % res["bad"][:5])
+    return res
+
+
+def _ops_sample(o):
+    keep = {k: o[k] for k in ("scn", "ev", "args", "ok", "err", "ret")}
+    b = o["post"]["bld"]
+    keep["builder_after"] = {"msgs": [m["h"] for m in b["msgs"]], "fee": b["fee"], "gas": b["gas"], "ext": b["ext"]}
+    keep["decoded_after"] = [{"msgs": [m["h"] for m in d["msgs"]], "recorded": [m["rec"] for m in d["msgs"]],
+                              "fee": d["fee"], "gas": d["gas"]} for d in o["post"]["dec"]]
+    return keep
+
+
+def _run_ops(c, quick):
+    """The sequence machine: model checking, scripts and random scenarios on the real objects, trace validation.
+    Returns (validation result, trace path)."""
+    wd = scratch("C18-ops")
+    # 1. P on the model: exhaustive for the intended machine; every mutation witness must be refuted by P
+    cfg = "EnvelopeOps_intended.cfg" if quick else "EnvelopeOps_intended_thorough.cfg"
+    r = tlc_exhaustive(wd, "EnvelopeOps.tla", cfg, workers=4, timeout=3000)
+    c.add_tlc(cfg, r)
+    refuted = {}
+    for w in OPS_WITNESSES:
+        cfg = "EnvelopeOps_witness_%s.cfg" % w
+        r = tlc_exhaustive(wd, "EnvelopeOps.tla", cfg, must="fail", workers=1)
+        c.add_tlc(cfg, r)
+        refuted[w] = r.invariant_violated or ["action property"]
+    # 2. spec -> code: simulated behaviours of the model (pool drawn from Envelope's case product) and seeded
+    #    random scenarios (values outside the class grid) on the real builder / messages / decoded transactions
+    nscripts = 400 if quick else 3000
+    scripts, r = tlc_scripts(wd, "EnvelopeOps.tla", "EnvelopeOps_sim.cfg", nscripts, 13, c.seed, timeout=1800)
+    if len(scripts) < nscripts // 2:
+        raise Infra("too few sequence scripts generated: %d" % len(scripts))
+    with open(os.path.join(wd, "scripts.json"), "w") as fh:
+        json.dump({"scripts": [_ops_script(s["pool"], s["steps"]) for s in scripts]}, fh)
+    nrandom = 200 if quick else 2000
+    out, hv_wall = hv(["envops", "--scripts", "scripts.json", "--random", str(nrandom), "--steps", "14" if quick else "20",
+                       "--seed", str(c.seed), "--out", "trace.ndjson", "--workers", "4" if quick else "8"], cwd=wd, timeout=6000)
+    trace = os.path.join(wd, "trace.ndjson")
+    # 3. code -> spec
+    res = _ops_validate(wd, parallel=4)
+    if res["consumed"] != count_lines(trace):
+        raise Infra("sequence trace: consumed %d of %d lines" % (res["consumed"], count_lines(trace)))
+    if res["scenarios"] != len(scripts) + nrandom:
+        raise Infra("sequence trace: %d scenarios recorded for %d scripts" % (res["scenarios"], len(scripts) + nrandom))
+    if res["bad"]:
+        raise Infra("sequence harness/specification problem (not a verdict): %d, e.g. %s" % (len(res["bad"]), res["bad"][:5]))
+    want = {"build": 0, "lookup": 0}
+    with open(trace) as fh:
+        for line in fh:
+            if not any(want[k] < 1 for k in want):
+                break
+            o = json.loads(line)
+            if o["ev"] == "build" and want["build"] < 1 and o["scn"] > 3 and len(o["post"]["dec"]) > 0:
+                want["build"] += 1
+                c.samples.insert(0, _ops_sample(o))
+            elif o["ev"] == "lookup" and want["lookup"] < 1 and o["ok"] and o["args"]["env"] != "bld" \
+                    and o["post"]["dec"][int(o["args"]["env"][1:]) - 1]["msgs"][0]["h"] != o["ret"]["h"]:
+                want["lookup"] += 1
+                c.samples.insert(0, _ops_sample(o))
+    c.extra["sequences"] = {
+        "scripts_from_tlc": len(scripts), "random_scenarios": nrandom, "trace_lines": res["consumed"],
+        "tlc_counters": res["cnt"], "mutation_witnesses_refuted_by_P": refuted,
+        "harness_wall_s": round(hv_wall, 1), "trace_validation_cpu_s": round(res["wall"], 1),
+        "conformance_divergences": res["div"][:20], "conformance_divergence_count": len(res["div"]),
+    }
+    return res, trace
+
+
+def _ops_floors(cnt, quick, scenarios):
+    if cnt.get("skipped", 0) * 20 > scenarios:
+        raise Infra("vacuous run: the code refused the pool of %d of %d sequence scenarios" % (cnt.get("skipped", 0), scenarios))
+    floors = {"freeAfterPaying": 30, "lessGasAfterMore": 30, "oneAfterSeveral": 30, "decodesMulti": 30, "lookupsLater": 30,
+              "lookupsAbsentMulti": 10, "lookupsFound": 100, "getsDecoded": 20, "encodes": 100, "packs": 50}
+    for k, v in floors.items():
+        if cnt.get(k, 0) < (v if quick else 8 * v):
+            raise Infra("vacuous run: sequence counter %s = %s (floor %d)" % (k, cnt.get(k), v if quick else 8 * v))
 
 
 def run(c):
@@ -211,6 +351,10 @@ def run(c):
         "harness_wall_s": round(hv_wall, 1), "trace_validation_cpu_s": round(res["wall"], 1),
         "conformance_divergences": res["div"][:20], "conformance_divergence_count": len(res["div"]),
     })
+    # 3b. the same API in sequences on shared objects (EnvelopeOps)
+    ops_res, ops_trace = _run_ops(c, quick)
+    c.traces += ops_res["scenarios"]
+
     # 4. verdict: every signature is reproduced alone from its recorded case before it counts
     first = {}
     for v in sorted(res["viol"], key=lambda v: v["line"]):
@@ -236,6 +380,26 @@ def run(c):
             c.replays[s] = path
             confirmed.append(v)
         c.add_violations(confirmed)
+    ofirst = {}
+    for v in sorted(ops_res["viol"], key=lambda v: v["line"]):
+        ofirst.setdefault(sig_of(v), v)
+    if ofirst:
+        scns = sorted({v["scn"] for v in ofirst.values()})
+        recorded = _ops_scenarios(ops_trace, set(scns))
+        rres = _run_ops_scripts("C18-ops-replay", [recorded[s] for s in scns])
+        shown = collections.defaultdict(set)
+        for v in rres["viol"]:
+            shown[scns[v["scn"] - 1]].add(sig_of(v))
+        confirmed = []
+        for s, v in ofirst.items():
+            kind = "".join(ch if ch.isalnum() else "_" for ch in s.split("|")[1])
+            path = save_replay("C18", "%s-ops-scn%d-%s-%s" % (c.seed, v["scn"], kind, hashlib.sha1(s.encode()).hexdigest()[:6]),
+                               {"property": "C18", "driver": "envops", "script": recorded[v["scn"]], "signature": s})
+            if s not in shown[v["scn"]]:
+                raise Infra("signature %s did not reproduce from %s" % (s, path))
+            c.replays[s] = path
+            confirmed.append(v)
+        c.add_violations(confirmed)
     # 5. non-vacuity floors (exit 2).  They are consulted only when nothing was found: a change that makes
     #    the code refuse everything is reported through the identities it breaks, not hidden behind a floor
     if not c.viol:
@@ -247,12 +411,14 @@ def run(c):
                 raise Infra("vacuous run: only %d accepted %s transactions made the round trip" % (stat["accepted:" + t], t))
         if stat["refused_at_construction"] < 5 or figchecks < (500 if quick else 50000):
             raise Infra("vacuous run: refused=%d dynamic effective-price checks=%d" % (stat["refused_at_construction"], figchecks))
+        _ops_floors(ops_res["cnt"], quick, ops_res["scenarios"])
     c.assumptions += [
         "TLC 1.8.0, the Json community module and the BigNum Java override (java/BigNum.java) are trusted",
         "go-ethereum's signer, hash and accessors are the reference for the ORIGINAL transaction; its Cost / AsMessage figures are cross-checked against TLC's (a mismatch stops the run as an infrastructure problem)",
         "the round trip is FromEthereumTx -> BuildTx(encoding.MakeConfig(app.ModuleBasics).TxConfig builder) -> TxEncoder -> TxDecoder -> GetMsgs -> AsTransaction; the ante handler is not run",
         "codec internals (RLP, protobuf, Any) are observed before/after, not modelled; fidelity is established for the enumerated classes and the seeded instances inside them",
         "cases refused at construction or whose envelope cannot be built after ValidateBasic refused them are counted, not judged",
+        "sequences: the projection (hash, recorded hash, type, sender, field digest, fee, gas, cost, effective fee, ValidateBasic of every message object; fee, gas limit, extension options of every envelope) is read after each call through read-only calls; the unsigned From field (filled by GetSender, cleared by BuildTx) is not an observable of the statement and is left out; multi-message envelopes are put together by the harness with the builder's own setters (summed fee and gas limit, as the ante handler requires)",
     ]
 
 
@@ -260,7 +426,10 @@ def replay(path, quiet=False):
     """re-executes one saved case on the real code and returns the signatures it shows"""
     build_harness()
     obj = json.load(open(path))
-    res = _run_cases("C18-replay1", [obj["case"]])
+    if obj.get("driver") == "envops":
+        res = _run_ops_scripts("C18-ops-replay1", [obj["script"]])
+    else:
+        res = _run_cases("C18-replay1", [obj["case"]])
     sigs = sorted({sig_of(v) for v in res["viol"]})
     if not quiet:
         for s in sigs:
